@@ -113,7 +113,7 @@ def crbStep (codec : Codec) (d : Bytes) (conOff : Int) (st : CrbState) : R CrbSt
     let s ← decodeText codec (pySlice d idxc (idxc + strlength))
     pure { idx := idx2, bpc := bpc1, acc := st.acc ++ [Name.s (escapeString s)] }
   else if ctype = 4 then
-    pure { idx := idx2, bpc := bpc1, acc := st.acc ++ [Name.i coff] }
+    pure { idx := idx2, bpc := bpc1, acc := st.acc ++ [Name.s (intStr coff)] }
   else if ctype = 9 then do
     let idxc := conOff + coff
     let flen ← getSI 4 d idxc
